@@ -35,9 +35,9 @@ type op struct {
 
 type caseDesc struct {
 	Family   string `json:"family"`
-	Variant  int    `json:"variant"`  // parameters of the unchanged rule
-	Edit     string `json:"edit"`     // what happens to the OTHER rules in the reload
-	Path     string `json:"path"`     // whole-set | per-resource
+	Variant  int    `json:"variant"` // parameters of the unchanged rule
+	Edit     string `json:"edit"`    // what happens to the OTHER rules in the reload
+	Path     string `json:"path"`    // whole-set | per-resource
 	ReloadAt int    `json:"reload_at"`
 	Ops      []op   `json:"ops"`
 	Note     string `json:"note,omitempty"`
@@ -58,17 +58,29 @@ var caseNo int
 type family struct {
 	name string
 	// load installs the list for run-resource R / other resource O; stage 0 = initial, 1 = after the edit
-	load  func(R, O string, c *caseDesc, stage int, perRes bool)
-	clear func()
-	genOp func(rng *rand.Rand, i int) op
-	nops  func(rng *rand.Rand) int
+	load   func(R, O string, c *caseDesc, stage int, perRes bool)
+	clear  func()
+	genOp  func(rng *rand.Rand, i int) op
+	nops   func(rng *rand.Rand) int
 	ruleID func(b *base.BlockError) string
 }
 
-var edits = []string{"none(identical list)", "other-resource-add", "other-resource-remove", "other-resource-modify", "same-resource-add-inert-before", "same-resource-add-inert-after", "same-resource-remove-inert", "same-resource-modify-inert", "duplicate-kept", "reorder"}
+var edits = []string{"none(identical list)", "other-resource-add", "other-resource-remove", "other-resource-modify", "same-resource-add-inert-before", "same-resource-add-inert-after", "same-resource-remove-inert", "same-resource-modify-inert", "duplicate-kept", "reorder",
+	// a never-binding rule with the SAME statistic parameters as the unchanged rule is modified and moved in front of it
+	"stat-sharing-rule-modified-and-moved-before"}
 
 // list layout helper: returns the positions of (inert rules, unchanged rule) for the stage
-//   stage 0: depends on the edit so that the edit is possible (e.g. remove needs an inert rule to be present)
+//
+//	stage 0: depends on the edit so that the edit is possible (e.g. remove needs an inert rule to be present)
+//
+// shareLayout: for the stat-sharing edit: 0 = no such rule, 1 = after the unchanged rule (original), 2 = before it (modified)
+func shareLayout(edit string, stage int) int {
+	if edit != "stat-sharing-rule-modified-and-moved-before" {
+		return 0
+	}
+	return 1 + stage
+}
+
 func layout(edit string, stage int) (inertBefore, inertAfter int, dup bool, inertVariant int, other int) {
 	// other: 0 none, 1 threshold v1, 2 threshold v2
 	switch edit {
@@ -92,6 +104,8 @@ func layout(edit string, stage int) (inertBefore, inertAfter int, dup bool, iner
 		return 0, stage, true, 0, 1
 	case "reorder":
 		return 1 - stage, stage, false, 0, 1
+	case "stat-sharing-rule-modified-and-moved-before":
+		return 0, 0, false, 0, 1
 	}
 	return 0, 0, false, 0, 0
 }
@@ -117,11 +131,27 @@ func flowFamily(name string) *family {
 		inert := func(k int) *flow.Rule {
 			return &flow.Rule{ID: fmt.Sprintf("inert%d", k), Resource: R, TokenCalculateStrategy: flow.Direct, ControlBehavior: flow.Reject, Threshold: 1e9 + float64(iv), StatIntervalInMs: 700}
 		}
+		// never-binding rule sharing the unchanged rule's statistic parameters (same strategy kind, interval, relation)
+		share := func(modified bool) *flow.Rule {
+			x := flowRule(R, name, c.Variant)
+			x.ID = "sharing"
+			x.Threshold = 1e9
+			if modified {
+				x.Threshold = 2e9
+			}
+			return x
+		}
 		var rs []*flow.Rule
 		for k := 0; k < ib; k++ {
 			rs = append(rs, inert(k))
 		}
+		if shareLayout(c.Edit, stage) == 2 {
+			rs = append(rs, share(true))
+		}
 		rs = append(rs, flowRule(R, name, c.Variant))
+		if shareLayout(c.Edit, stage) == 1 {
+			rs = append(rs, share(false))
+		}
 		if dup {
 			rs = append(rs, flowRule(R, name, c.Variant))
 		}
@@ -186,11 +216,26 @@ func cbFamily() *family {
 		inert := func(k int) *cb.Rule {
 			return &cb.Rule{Id: fmt.Sprintf("inert%d", k), Resource: R, Strategy: cb.ErrorCount, RetryTimeoutMs: 1000, MinRequestAmount: 1, StatIntervalMs: 10000, Threshold: 1e9 + float64(iv)}
 		}
+		share := func(modified bool) *cb.Rule {
+			x := mk()
+			x.Id = "sharing"
+			x.MinRequestAmount = 1000000000 // never trips
+			if modified {
+				x.MinRequestAmount = 2000000000
+			}
+			return x
+		}
 		var rs []*cb.Rule
 		for k := 0; k < ib; k++ {
 			rs = append(rs, inert(k))
 		}
+		if shareLayout(c.Edit, stage) == 2 {
+			rs = append(rs, share(true))
+		}
 		rs = append(rs, mk())
+		if shareLayout(c.Edit, stage) == 1 {
+			rs = append(rs, share(false))
+		}
 		if dup {
 			rs = append(rs, mk())
 		}
@@ -243,11 +288,27 @@ func hotFamily(name string) *family {
 		inert := func(k int) *hotspot.Rule {
 			return &hotspot.Rule{ID: fmt.Sprintf("inert%d", k), Resource: R, MetricType: hotspot.QPS, ParamIndex: 0, Threshold: 1000000 + int64(iv), DurationInSec: 2}
 		}
+		share := func(modified bool) *hotspot.Rule {
+			x := mk()
+			x.ID = "sharing"
+			x.Threshold = 1000000
+			x.SpecificItems = nil
+			if modified {
+				x.Threshold = 2000000
+			}
+			return x
+		}
 		var rs []*hotspot.Rule
 		for k := 0; k < ib; k++ {
 			rs = append(rs, inert(k))
 		}
+		if shareLayout(c.Edit, stage) == 2 {
+			rs = append(rs, share(true))
+		}
 		rs = append(rs, mk())
+		if shareLayout(c.Edit, stage) == 1 {
+			rs = append(rs, share(false))
+		}
 		if dup {
 			rs = append(rs, mk())
 		}
@@ -487,6 +548,10 @@ func main() {
 		c := &caseDesc{Family: f.name, Variant: rng.Intn(12), Edit: edits[rng.Intn(len(edits))], Path: vk.PickS(rng, "whole-set", "per-resource")}
 		if c.Path == "per-resource" && (c.Edit == "other-resource-add" || c.Edit == "other-resource-remove" || c.Edit == "other-resource-modify") {
 			c.Path = "whole-set"
+		}
+		if c.Edit == "stat-sharing-rule-modified-and-moved-before" && (f.name == "flow-throttling" || (f.name == "hotspot-qps" && c.Variant%2 == 1)) {
+			// a throttling rule cannot be made inert (even at a threshold of 1e9 it asks for 1-2 ns waits) and has no statistic to share
+			c.Edit = "reorder"
 		}
 		nops := f.nops(rng)
 		for k := 0; k < nops; k++ {
